@@ -595,6 +595,59 @@ fn make_exclusive(def: usize, name: usize) -> impl FnMut(&mut World, Local<u32>)
     }
 }
 
+thread_local! { static CURRENT: RefCell<Vec<Entity>> = RefCell::new(Vec::new()); }
+thread_local! { static ZST_RUNS: RefCell<std::collections::HashMap<usize, u32>> = RefCell::new(std::collections::HashMap::new()); }
+
+/// A zero-sized scripted reactor (a plain `fn` item) for `App::add_reactor`: it cannot capture its name, so it looks up
+/// the system the runner is executing (maintained by the hook sink); its "captured" counter lives in a side table keyed by
+/// that name, so that a `Local` shared between two registrations of the same function shows as a label mismatch.
+fn app_reactor<const D: usize>(mut local: Local<u32>, mut c: Commands, mut ev: EvReaders, er: EntReaders, mut acc: Access,
+    ents: &bevy::ecs::entity::Entities)
+{
+    let Some(me) = CURRENT.with(|c| c.borrow().last().copied()) else { log("app reactor outside the runner".into()); return };
+    let name = SH.with(|s| s.borrow().sys_names.iter().position(|x| *x == me)).unwrap_or(usize::MAX);
+    let cap = ZST_RUNS.with(|z| { let mut z = z.borrow_mut(); let e = z.entry(name).or_insert(0); let v = *e; *e += 1; v });
+    let run = *local;
+    let (obs, taken) = sample(&mut ev, &er, ents);
+    log(format!("body s{} {} {} loc=", name, run_label(run, cap), obs));
+    drop(taken);
+    *local += 1;
+    if runaway() { return; }
+    let script = script_for(D, cap);
+    let owner = format!("s{name}");
+    run_script(&mut c, &mut Ctx::Full(&mut acc), &script, &owner, cap);
+    log(format!("bodyend s{name}"));
+}
+
+/// `top appreactor d trigs`: `App::add_reactor` with a zero-sized reactor function (exclusive definitions use the ordinary
+/// closure path). The markers a batch would queue around the action are logged around the call.
+fn add_app_reactor(app: &mut App, t: usize, d: usize, ts: &[STrig])
+{
+    log(format!("top {t}"));
+    log(format!("m+ top{t} 0 0"));
+    let done = format!("m- top{t} 0 0");
+    let Some(b) = resolve_trigs(ts) else { log(done); return };
+    let Some(excl) = SH.with(|s| s.borrow().defs.get(d).map(|d| d.excl)) else { log(done); return };
+    let before: Vec<Entity> = app.world().iter_entities().map(|e| e.id()).collect();
+    let name = next_system_name();
+    if excl { app.add_reactor(b, make_exclusive(d, name)); }
+    else
+    {
+        match d
+        {
+            0 => { app.add_reactor(b, app_reactor::<0>); }
+            1 => { app.add_reactor(b, app_reactor::<1>); }
+            2 => { app.add_reactor(b, app_reactor::<2>); }
+            3 => { app.add_reactor(b, app_reactor::<3>); }
+            _ => { app.add_reactor(b, make_ordinary(d, name, None)); }
+        }
+    }
+    // the reactor entity is the one new entity that carries system command storage
+    let new: Vec<Entity> = app.world().iter_entities().map(|e| e.id()).filter(|e| !before.contains(e)).collect();
+    if let Some(e) = new.first().copied() { new_system_name(e); SH.with(|s| { s.borrow_mut().ready.insert(e); }); }
+    log(done);
+}
+
 fn make_callback(def: usize, name: usize, ewr: Option<usize>) -> SystemCommandCallback
 {
     let excl = SH.with(|s| s.borrow().defs.get(def).map(|d| d.excl)).unwrap_or(false);
@@ -733,6 +786,7 @@ fn run_top(world: &mut World, t: usize, op: &STop)
     match op
     {
         STop::Acts(script) => top_acts(world, t, script.clone()),
+        STop::AppReactor(..) => {}
         STop::WDespawn(r) => { if let Some(e) = resolve(*r) { world.despawn(e); } else { top_acts(world, t, vec![]) } }
         STop::WDespawnRec(r) =>
         {
@@ -834,6 +888,8 @@ fn run_scenario(path: &str)
     let Some(sc) = parse_scenario(&text) else { println!("parse-error"); return };
     println!("scenario {path}");
     BODIES.with(|b| b.set(0));
+    CURRENT.with(|c| c.borrow_mut().clear());
+    ZST_RUNS.with(|z| z.borrow_mut().clear());
     SH.with(|s| *s.borrow_mut() = Shared{ defs: Arc::new(sc.defs.clone()), n_wr: sc.wrs.len(), n_ewr: sc.ewrs.len(), ..Default::default() });
 
     let result = std::panic::catch_unwind(std::panic::AssertUnwindSafe(|| {
@@ -869,15 +925,18 @@ fn run_scenario(path: &str)
                 AbortMissingAtRoot => "abortroot", Postponed => "postponed", Enter => "enter", Exit => "exit",
                 Reinserted => "reinserted", Dropped => "dropped", Replay => "replay", Discard => "discard", Return => "return",
             };
+            if let Enter = ev { CURRENT.with(|c| c.borrow_mut().push(e)); }
+            if let Exit = ev { CURRENT.with(|c| { c.borrow_mut().pop(); }); }
             log(format!("{} {}", n, name_of(e)));
         })));
 
-        let world = app.world_mut();
         for (t, op) in sc.tops.iter().enumerate()
         {
-            quiescent(world);
-            run_top(world, t, op);
+            quiescent(app.world_mut());
+            if let STop::AppReactor(d, ts) = op { add_app_reactor(&mut app, t, *d, ts); continue }
+            run_top(app.world_mut(), t, op);
         }
+        let world = app.world_mut();
         quiescent(world);
         log("end".into());
         // Dropping the app drops every system; silence the canaries/payloads that produces.
